@@ -1,6 +1,7 @@
 import ApolloModel.Proofs.ParserWhole
 import ApolloModel.Proofs.ParserType10
 import ApolloModel.Proofs.ParserSel9
+import ApolloModel.Proofs.ParserComplete5
 /-
 C07 — Standalone type and field-set parsing consume the whole input.
 Parser model of C01 with the repaired entry points (`expect_end_of_input`).
@@ -184,6 +185,40 @@ theorem variable_definitions_accept_sound (n : Nat) (s s' : PState) (w : TW s) (
     ∃ (cs : List Tok) (x : List Ast.Tok), Toks s = cs ++ Toks s' ∧ NoEof cs ∧ EofEnd s' ∧
       (sig cs).map astOfV = x.map some ∧ ∃ vs : List Ast.VarDef, vs ≠ [] ∧ x = Ast.tVarDefs vs :=
   (Parse.acc_variableDefinitions n).sound s s' () w he hk h hnd
+
+/-! ### completeness of the `selectionSet` entry point (growth 5): statement, guards, witnesses -/
+
+/-- OPEN OBLIGATION (stated, not yet proved): **acceptance is complete** for `parse_selection_set` — every
+    source without lexer error whose significant tokens are an `IsFieldSet` sequence followed by EOF, whose
+    first token is not an ignored one, and whose nesting fits the recursion limit (`depthOk`: each `{ … }`
+    level costs 1, each list/object level inside an argument value costs 1 more) parses without error.
+    The building blocks are proved in the completeness calculus `Parse.Cmp` (ParserComplete1–5): values,
+    arguments, directives (C05 `value_accept_complete`, `arguments_accept_complete`,
+    `directives_accept_complete`), names, punctuators, optional parts (`cmp_optKind`), kind-guarded loops
+    (`cmp_kindWhileLoop`), `withRec` budget (`cmp_withRec`).  Missing: the two `peek_n(2)` decisions in
+    `field` (alias) and `selection` (spread vs inline fragment) and the flag-loop of `selection_set`. -/
+def fieldset_accept_complete_statement (depthOk : Nat → List Ast.Tok → Prop) : Prop :=
+  ∀ (rl : Nat) (src : Parse.Str) (x : List Ast.Tok) (ts : List Tok) (e : Tok),
+    LexClean src → sig (srcToks src) = ts ++ [e] → e.kind = .eof → TokIs ts x → IsFieldSet x → depthOk rl x →
+    (∀ hd tl, srcToks src = hd :: tl → isIgnoredKind hd.kind = false) →
+    (parse .selectionSet none rl src).errors = []
+
+-- the guards of that statement are necessary (kernel-evaluated on the model):
+-- (1) a leading ignored token before the brace is REJECTED (`field_set` peeks `{` on the raw current token)
+example : (parse .selectionSet none 500 "{a}".toList).errors = [] := by decide +kernel
+example : (parse .selectionSet none 500 " {a}".toList).errors ≠ [] := by decide +kernel
+-- (2) the budget: each brace level costs one, a brace-less field costs one, list nesting in arguments adds
+example : (parse .selectionSet none 0 "a".toList).errors ≠ [] := by decide +kernel
+example : (parse .selectionSet none 1 "{a}".toList).errors = [] := by decide +kernel
+example : (parse .selectionSet none 1 "{a{b}}".toList).errors ≠ [] := by decide +kernel
+example : (parse .selectionSet none 2 "{a{b}}".toList).errors = [] := by decide +kernel
+example : (parse .selectionSet none 1 "a(x:[1])".toList).errors ≠ [] := by decide +kernel
+-- (3) no mismatch with the C08 grammar found on the lookahead decisions: the alias colon may be separated by
+-- ignored tokens, `...on T` and `... on T` are both inline fragments, names `true`/`false` are fine as
+-- field, argument and directive names and as values
+example : (parse .selectionSet none 500 "{ a , : b }".toList).errors = [] := by decide +kernel
+example : (parse .selectionSet none 500 "{ ...on T { c } ... on T { c } ... @d { c } ... { c } }".toList).errors = [] := by decide +kernel
+example : (parse .selectionSet none 500 "{ true(x: true) @false }".toList).errors = [] := by decide +kernel
 
 end Executable
 
